@@ -792,6 +792,28 @@ def C09(c):
         out.append(cscn("%s_hist" % kind, kind, n, 4, [ops], dfs(0, 1), pre_streams=["new"]))
         return out
     run_multi(c, ["multi_mmap"], build, checks, procs=4)
+    # the same executions once more with every atomic operation recorded, replayed through the L2 specification MmapLog itself:
+    # each fetch_add / load / compare-exchange on publisher_tail, consumer_tail and the subscribers' heads must be the next step of
+    # that publisher / subscriber in the model, and the model's C09 invariants must hold along the real behaviour
+    scns = build("multi_mmap")
+    for s_ in scns:
+        s_["record_ops"] = True
+        s_["id"] += "_ops"
+        if s_["explore"]["mode"] == "dfs":
+            s_["explore"]["max_runs"] = max(1, s_["explore"]["max_runs"] // 2)
+        elif s_["explore"]["mode"] == "random":
+            s_["explore"]["runs"] = max(1, s_["explore"]["runs"] // 2)
+    l2c = {"Pubs": [0, 1, 2, 3], "PerPub": 6, "Subs": list(range(8)), "MaxHandles": 8}
+    trace, runs, v = c.conform(scns, "multi_mmap_l2", "Trace_MmapLog", l2c)
+    for x in v["violations"]:
+        s2 = dict([q for q in scns if q["id"] == x["run"]["scn"]][0])
+        s2["explore"] = {"mode": "replay", "schedules": [x["run"]["choices"]]}
+        c.violation("%s (MmapLog) violated by the real code (scenario %s, run %d)" % (x["inv"], x["run"]["scn"], x["run"]["run"]),
+                    {"scenario": s2, "run": x["run"], "events": extract_run(trace, x["run"]), "module": "Trace_MmapLog", "consts": {k: tla_val(q) for k, q in l2c.items()}, "invariant": x["inv"]})
+    if v["mismatches"]:
+        c.drift.append("multi_mmap: %d run(s) of the real log channel are not behaviours of MmapLog (first unmatched event: %s)" % (len(v["mismatches"]), json.dumps(v["mismatches"][0]["event"])[:300]))
+    if v["unvalidated"]:
+        c.tool_errors[:] = [e for e in c.tool_errors if not str(e).startswith("UNVALIDATED[multi_mmap_l2]")]
 
 
 def C16_multi(c):
